@@ -1,0 +1,24 @@
+// Copyright 2021 TiKV Project Authors.
+//
+// Licensed under the Apache License, Version 2.0 (the "License");
+// you may not use this file except in compliance with the License.
+// You may obtain a copy of the License at
+//
+//     http://www.apache.org/licenses/LICENSE-2.0
+//
+// Unless required by applicable law or agreed to in writing, software
+// distributed under the License is distributed on an "AS IS" BASIS,
+// See the License for the specific language governing permissions and
+// limitations under the License.
+
+//go:build verif
+// +build verif
+
+// Contracts (checked by /verif/govc; comment-only file).
+package versioninfo
+
+// semver parsing is outside the verified code: a successful parse yields a version object.
+//@ func ParseVersion
+//@   assumed
+//@   ensures r1 == nil ==> r0 != nil
+//@   modifies nothing
